@@ -5,8 +5,10 @@
   the open / request waiters, `_close_event`, the session reference and the sequence of callbacks it received,
   the send buffer / send window and the receive buffer / receive window in *units of one byte* (every write of
   the scripts is one byte, so `_flush_send_buf` sends `min(buffered, window)` one-byte packets), reading paused.
-  What is abstracted: payload bytes, encodings, pty / env contents, X11, agent forwarding, line editor,
-  `pause_writing`/`resume_writing` (default water marks are never reached by one-byte writes).
+  Write flow control is kept too: `_send_paused`, the water marks of `set_write_buffer_limits`, the callbacks
+  `pause_writing` / `resume_writing`, and the tasks blocked in `drain()` on a session that follows those
+  callbacks (what `SSHStreamSession.drain` does: blocked while writing is paused and the channel is not lost).
+  What is abstracted: payload bytes, encodings, pty / env contents, X11, agent forwarding, line editor.
 
   Python mutates in place and may raise half-way: every method returns `R` = (new state, actions for the
   connection, exception raised if any); state changes made before the `raise` are kept.
@@ -52,6 +54,7 @@ inductive Cb where
   | made | started | data | eof | exit | ptyReq
   | sessReq (k : ReqKind)
   | lost (e : Exc)
+  | pauseW | resumeW             -- `pause_writing()` / `resume_writing()`
   deriving DecidableEq, Repr, Inhabited
 
 /-- value with which the open waiter / a request waiter is resolved (what the awaiting `create()` sees) -/
@@ -99,6 +102,12 @@ structure Chan where
   reg : Bool := true                  -- `_conn is not None` (and `_recv_chan in conn._channels`)
   sendBuf : Nat := 0
   sendWin : Nat := 0
+  sendEofPending : Bool := false      -- `_send_eof_pending`: `close()` overtook an EOF still waiting for window
+  sendPaused : Bool := false          -- `_send_paused`: the session was told `pause_writing()`
+  hiWater : Nat := 65536              -- `_send_high_water` / `_send_low_water` (`set_write_buffer_limits`)
+  loWater : Nat := 16384
+  drainPending : Nat := 0             -- tasks blocked in `drain()` of a session following pause / resume_writing
+  drainDone : Nat := 0
   recvBuf : Nat := 0                  -- `_recv_buf` / `_recv_buf_len` (one-byte items)
   recvEofPending : Bool := false      -- `_recv_eof_pending`: the peer's CLOSE overtook its still pending EOF
   recvWin : Nat := 1
@@ -160,8 +169,10 @@ def cleanup (c : Chan) (e : Exc) : R :=
     else c.wakeVal
   let acts : List Act := if c.openWaiter ∨ c.reqWaiter then [.wake] else []
   let tr := if c.session then c.trace ++ [.lost e] else c.trace
-  let c1 : Chan := { c with openWaiter := false, reqWaiter := false, wakeVal := wv, trace := tr, session := false,
-                            closeEvent := true, wcDone := c.wcDone + c.wcPending, wcPending := 0 }
+  -- `connection_lost` releases whoever is blocked in `drain()` (`SSHStreamSession.connection_lost` → `_unblock_drain`)
+  let c0 : Chan := if c.session then { c with drainDone := c.drainDone + c.drainPending, drainPending := 0 } else c
+  let c1 : Chan := { c0 with openWaiter := false, reqWaiter := false, wakeVal := wv, trace := tr, session := false,
+                             closeEvent := true, wcDone := c.wcDone + c.wcPending, wcPending := 0 }
   let c2 : Chan := if c1.reg then { c1 with reg := false, sendChan := none } else c1
   R.ok c2 acts
 
@@ -172,23 +183,58 @@ def closeSend (c : Chan) : R :=
     R.ok { c1 with sendChan := none, sendSt := .closed } (sendPkt c1 .close)
   else R.ok c1
 
-/-- `_discard_recv` (channel.py:264) -/
+/-- `_discard_recv` (channel.py:267).  The window the discarded data had used is given back to the peer
+    (`if self._recv_buf_len: self.send_packet(MSG_CHANNEL_WINDOW_ADJUST, UInt32(self._recv_buf_len))`; nothing is
+    sent once the CLOSE is out: `_send_chan is None`). -/
 def discardRecv (c : Chan) : R :=
+  let acts : List Act := if 0 < c.recvBuf then sendPkt c (.adjust c.recvBuf) else []
+  let c1 : Chan := { c with recvBuf := 0, paused := .no }
+  if c1.recvSt = .closePending then R.ok { c1 with recvSt := .closed } (acts ++ [.sched .clean])
+  else R.ok c1 acts
+
+/-- the code before the repair: the discarded data was never credited -/
+def discardRecvPreFix (c : Chan) : R :=
   let c1 : Chan := { c with recvBuf := 0, paused := .no }
   if c1.recvSt = .closePending then R.ok { c1 with recvSt := .closed } [.sched .clean]
   else R.ok c1
 
-/-- `_flush_send_buf` (channel.py:305) for one-byte buffers -/
+/-- `_pause_resume_writing` (channel.py:295): the flag is set before the `assert self._session is not None` -/
+def pauseResumeWriting (c : Chan) : R :=
+  if c.sendPaused then
+    if c.sendBuf ≤ c.loWater then
+      let c1 : Chan := { c with sendPaused := false }
+      if c1.session then
+        -- `resume_writing()`: whoever follows the callbacks and is blocked in `drain()` goes on
+        R.ok { c1 with trace := c1.trace ++ [.resumeW], drainDone := c1.drainDone + c1.drainPending, drainPending := 0 }
+      else R.fail c1 .assertion
+    else R.ok c
+  else if c.hiWater < c.sendBuf then
+    let c1 : Chan := { c with sendPaused := true }
+    if c1.session then R.ok { c1 with trace := c1.trace ++ [.pauseW] } else R.fail c1 .assertion
+  else R.ok c
+
+/-- the `close_pending` branch of `_flush_send_buf`: `if self._send_eof_pending:` the EOF written before `close()`
+    goes out first; then `_close_send()` -/
+def closeSendEof (c1 : Chan) : R :=
+  if c1.sendEofPending then (closeSend { c1 with sendEofPending := false }).pre (sendPkt c1 .eof)
+  else closeSend c1
+
+/-- `_flush_send_buf`, last part (channel.py:344): a pending EOF / close goes out once the buffer is empty -/
+def flushSendTail (c1 : Chan) : R :=
+  if c1.sendBuf = 0 then
+    match c1.sendSt with
+    | .eofPending => R.ok { c1 with sendSt := .eof } (sendPkt c1 .eof)
+    | .closePending => closeSendEof c1
+    | _ => R.ok c1
+  else R.ok c1
+
+/-- `_flush_send_buf` (channel.py:313) for one-byte buffers: data as far as the window allows, then
+    `_pause_resume_writing()`, then the pending EOF / close -/
 def flushSendBuf (c : Chan) : R :=
   let k := min c.sendBuf c.sendWin
   let acts := (List.replicate k ()).flatMap (fun _ => sendPkt c .data)
   let c1 : Chan := { c with sendBuf := c.sendBuf - k, sendWin := c.sendWin - k }
-  if c1.sendBuf = 0 then
-    match c1.sendSt with
-    | .eofPending => R.ok { c1 with sendSt := .eof } (acts ++ sendPkt c1 .eof)
-    | .closePending => (closeSend c1).pre acts
-    | _ => R.ok c1 acts
-  else R.ok c1 acts
+  ((pauseResumeWriting c1).pre acts).andThen flushSendTail
 
 /-- `write_eof` (channel.py:981) -/
 def writeEof (c : Chan) : R :=
@@ -230,8 +276,16 @@ def flushRecvBuf (c : Chan) : R :=
   ((if c.paused = .no then deliverN c.recvBuf { c with recvBuf := 0 } else R.ok c).andThen flushEofPart).andThen
     flushClosePart
 
-/-- `_accept_data` for one byte (channel.py:391) -/
+/-- `_accept_data` for one byte (channel.py:421).  Data that arrives after the local `close()` is dropped, and the
+    window it used is given back at once (`send_packet(MSG_CHANNEL_WINDOW_ADJUST, UInt32(len(data)))`; nothing is
+    sent once the CLOSE is out), so that a peer which is closing too can finish sending and send its CLOSE. -/
 def acceptData (c : Chan) : R :=
+  if c.sendSt = .closePending ∨ c.sendSt = .closed then R.ok c (sendPkt c (.adjust 1))
+  else if c.paused ≠ .no then R.ok { c with recvBuf := c.recvBuf + 1 }
+  else deliverOne c
+
+/-- the code before the repair: dropped without a word -/
+def acceptDataPreFix (c : Chan) : R :=
   if c.sendSt = .closePending ∨ c.sendSt = .closed then R.ok c
   else if c.paused ≠ .no then R.ok { c with recvBuf := c.recvBuf + 1 }
   else deliverOne c
@@ -264,8 +318,17 @@ def processEof (c : Chan) : R :=
 
 def recvLive (s : St) : Bool := s = .opn ∨ s = .eofPending ∨ s = .eof
 
-/-- `_process_close` (channel.py:630) -/
+/-- `_process_close` (channel.py:669).  After `_close_send()` has thrown the unsent data away the water marks
+    are looked at again (`self._pause_resume_writing()`): a session that had been told to pause writing is told
+    to resume — the only thing that releases a writer blocked in `drain()` when the channel's `_cleanup` has to
+    wait for the application to read what is still buffered. -/
 def processClose (c : Chan) : R :=
+  if recvLive c.recvSt = false then R.fail c .proto
+  else ((closeSend c).andThen pauseResumeWriting).andThen fun c =>
+    flushRecvBuf { c with recvEofPending := decide (c.recvSt = .eofPending), recvSt := .closePending }
+
+/-- the code before the repair: `_send_paused` stayed set -/
+def processClosePreFix (c : Chan) : R :=
   if recvLive c.recvSt = false then R.fail c .proto
   else (closeSend c).andThen fun c =>
     flushRecvBuf { c with recvEofPending := decide (c.recvSt = .eofPending), recvSt := .closePending }
@@ -339,9 +402,10 @@ def abort (c : Chan) : R :=
   let r1 := if c.sendSt ≠ .closePending ∧ c.sendSt ≠ .closed then closeSend c else R.ok c
   r1.andThen fun c => if c.recvSt ≠ .closed then discardRecv c else R.ok c
 
-/-- `close` (channel.py:768) -/
+/-- `close` (channel.py:818); `self._send_eof_pending = self._send_state == 'eof_pending'` -/
 def close (c : Chan) : R :=
-  let r1 := if c.sendSt ≠ .closePending ∧ c.sendSt ≠ .closed then flushSendBuf { c with sendSt := .closePending }
+  let r1 := if c.sendSt ≠ .closePending ∧ c.sendSt ≠ .closed then
+              flushSendBuf { c with sendEofPending := decide (c.sendSt = .eofPending), sendSt := .closePending }
             else R.ok c
   r1.andThen fun c => if c.recvSt ≠ .closed then discardRecv c else R.ok c
 
@@ -350,6 +414,15 @@ def exit (c : Chan) : R :=
   if c.sendSt ≠ .closePending ∧ c.sendSt ≠ .closed then
     (close c).pre (sendPkt c (.req .exitStatus false))
   else R.ok c
+
+/-- `set_write_buffer_limits(high, low)` (channel.py:913) with `0 ≤ low ≤ high` -/
+def setLimits (c : Chan) (hi lo : Nat) : R := pauseResumeWriting { c with hiWater := hi, loWater := lo }
+
+/-- `drain()` of a session that follows `pause_writing` / `resume_writing` / `connection_lost`
+    (`SSHStreamSession.drain`, stream.py:669): blocks while writing is paused and the channel is not lost -/
+def drain (c : Chan) : Chan :=
+  if c.sendPaused ∧ c.session then { c with drainPending := c.drainPending + 1 }
+  else { c with drainDone := c.drainDone + 1 }
 
 /-- `wait_closed()` started: blocks unless `_close_event` is set -/
 def waitClosed (c : Chan) : Chan :=
@@ -453,6 +526,8 @@ def processMsg (c : Chan) (m : CMsg) : R :=
 /-- application calls on a channel object -/
 inductive AppOp where
   | write | eof | close | abort | pause | resume | exit
+  | limits (hi lo : Nat)      -- `set_write_buffer_limits(high=hi, low=lo)`
+  | drain                     -- `ensure_future(drain())` on the session's writer
   deriving DecidableEq, Repr, Inhabited
 
 def appOp (c : Chan) : AppOp → R
@@ -463,5 +538,7 @@ def appOp (c : Chan) : AppOp → R
   | .pause => pauseReading c
   | .resume => resumeReading c
   | .exit => if c.server then exit c else R.ok c
+  | .limits hi lo => setLimits c hi lo
+  | .drain => R.ok (drain c)
 
 end AsyncsshModel.Lifecycle
